@@ -139,6 +139,12 @@ def replay(ops, outs):
             rep = o.split("|", 1)[1]
         elif t[0] == "cli" and o.startswith("ok"):
             rep = o[2:]; calls.append((time, "connect", int(t[1])))
+        elif t[0] == "recli" and o.startswith("ok"):
+            # a new client object behind the same relay (same address for the server): its predecessor's events are kept apart
+            i = int(t[1])
+            if i in cev:
+                cev["%d/%d" % (i, sum(1 for k in cev if str(k).startswith("%d/" % i)))] = cev.pop(i)
+            rep = o[2:]; calls.append((time, "connect", i))
         elif t[0] in ("cdisc", "cdiscnow", "sdisc", "sdiscnow", "sdrop") and o == "ok":
             calls.append((time, t[0], int(t[1])))
         elif t[0] == "fwd" and o == "ok":
